@@ -1,7 +1,7 @@
 (* Evaluation of the C16 model on harness-written cases (correspondence check). *)
 From Coq Require Import List NArith ZArith String Bool.
 From V.Base Require Import Hex BigEndian.
-From V.C16 Require Import Model Sha3 Header.
+From V.C16 Require Import Model Sha3 Header KeyCodec.
 Import ListNotations.
 Local Open Scope Z_scope.
 
@@ -23,7 +23,9 @@ Inductive case :=
      ConsensusHelperImpl.VRFProve2Value(big(b)) bytes (32 bytes, big-endian, as hex) *)
 | CO (b obs_lottery : string)
   (* logical.CalDeltaByTime(after, before) on two times given in ns *)
-| CDt (after before obs : Z).
+| CDt (after before obs : Z)
+  (* a VRF key (or any byte string): observed GetHexString text and the bytes Hex2VRF...Key gives back *)
+| CK (key text back : string).
 
 Definition P (mq pmin pmax pidx th : Z) : params :=
   {| maxqn := mq; pp_min := pmin; pp_max := pmax; pp_idx := pidx; thr := th |}.
@@ -59,4 +61,5 @@ Definition check (c : case) : bool :=
   | CO b obs => bytes_eqb (lottery_reads (unhex b)) (unhex obs)
                 && bytes_eqb (verify_gamma (unhex b)) (unhex obs)
   | CDt a b obs => delta_of a b =? obs
+  | CK key text back => String.eqb (to_hex (unhex key)) text && bytes_eqb (from_hex text) (unhex back)
   end.
